@@ -300,7 +300,7 @@ def run(tier):
                         "constraint was evaluated")
     res.assumptions = ["values are read from core::to_json (the JSON a user gets); int variables are treated as reals (the network does not enforce integrality)"]
     exes = probes(tier)
-    total = 2400 if tier == "quick" else 16000
+    total = 2400 if tier == "quick" else 60000
     per = 20 if tier == "quick" else 50
     common.pmap(cons_work, [(exes, s, per, PID) for s in range(0, total, per)], res)
     common.pmap(cons_work, [(exes, s, per, PID, "tp") for s in range(0, total // 3, per)], res)
